@@ -169,6 +169,16 @@ PlainWr(t, x, v) ==
        /\ acq' = [acq EXCEPT ![t][x] = i]
        /\ UNCHANGED <<rel, scv>>
 
+\* first write to memory the allocator has just handed out: the allocator orders it after every earlier access to that memory
+\* (a model id that is reused for a new object stands for memory that went through free / malloc), so it cannot race
+FreshWr(t, x, v) ==
+  IF ~Weak THEN ScStore(x, v) /\ UNCHANGED <<cur, acq, rel, scv, race>>
+  ELSE LET i == Len(hist[x]) + 1 IN
+       /\ hist' = [hist EXCEPT ![x] = Append(@, [val |-> v, view |-> V0])]
+       /\ cur' = [cur EXCEPT ![t][x] = i]
+       /\ acq' = [acq EXCEPT ![t][x] = i]
+       /\ UNCHANGED <<rel, scv, race>>
+
 NoDataRace == ~race
 
 \* bound on message histories (state constraint in weak configs)
